@@ -222,6 +222,35 @@ CLAIMS = {
         'schema and is outside the statement. No axioms.',
    technique='Coq theorems on the parser model (boundary independent of the continuation) + correspondence + metamorphic checks on the implementation',
    ref='section 9, C15'),
+ 'C04': dict(
+   category='proof',
+   text='Coq theorem over the schema-text model (Model/SchemaText.v: lexer with whole annotations as tokens - rule object with nested '
+        'lists and rule-sets, note - and parser): every way of writing a tree as tokens (each annotation after the token of the node it '
+        'belongs to or, for scalars and references, after the following comma) is parsed back to exactly that tree - same nodes in order, '
+        'keys and key shortcuts, literals, annotations with rule names and values in source order, nothing else (mutual induction, explicit '
+        'fuel bound). Tie: the dump of GetAST() (kinds, decoded keys and scalars, reference texts, manual rules in order with values incl. '
+        '20-digit numbers, enum/or/allOf lists, rule-sets, notes) against the model on generated schema models printed under 4 layouts each; '
+        'the expected dump computed from the generating model is the oracle.',
+   note='Trusted: Coq kernel; model tied by correspondence; printer and dump in python; harness. Partial: the theorem is at the token level '
+        '(the lexer is covered by the C14 lemmas and the correspondence); annotation placements other than "after the value / after the '
+        'opening bracket" are not modelled; GetAST() reports allOf with one name as a single name (compared as such); generated rules are '
+        'not compared. No axioms.',
+   technique='Coq completeness proof of a token-level parser model (source -> tree homomorphism) + correspondence on printed models',
+   ref='section 9, C04'),
+ 'C14': dict(
+   category='proof',
+   text='Coq theorems on the lexer of the schema-text model: any run of blanks (space, tab, LF, CR) before a token changes nothing; a line '
+        'ends with LF or CR alike for comments and inline annotations; a `#` comment carries no token; `// note` and `/* note */` are the same '
+        'annotation token; an annotation before or after the comma gives the same tree (with C04: the tree depends on the token sequence only). '
+        'Tie and decision: every generated schema model is printed under 7 layouts (LF/CRLF/CR, inline/block annotations, quoted/bare rule names, '
+        'comma placement, # and ### comments, padding, indentation, blank lines) and the annotated sample schemas under context-free '
+        'transformations; all layouts must give the same verdict, AST dump (also equal to the model and to the generating model), example, '
+        'used types and OpenAPI JSON.',
+   note='Trusted: Coq kernel; model tied by correspondence; printer; harness. Partial: the lexer lemmas are local (one layout change each), '
+        'their composition over a whole text is not proved; quoted vs bare rule names and block annotations with rule objects are covered by '
+        'the correspondence only. No axioms.',
+   technique='Coq lexer lemmas per layout dimension + token-level parser theorem + pairwise comparison of all observables across layouts',
+   ref='section 9, C14'),
 }
 
 def main():
